@@ -44,6 +44,8 @@ class Env:
                 return RULENAME
             if f.startswith(FRAGMENT_MAKERS_PREFIX):
                 return FRAG
+            if isinstance(e.func, ast.Name) and self._bound_fragment_maker(e.func.id):
+                return FRAG
             if isinstance(e.func, ast.Attribute) and e.func.attr == "get" and isinstance(e.func.value, ast.Name):
                 # dict of constants with constant default
                 ds = self.defs.get(e.func.value.id, [])
@@ -62,6 +64,14 @@ class Env:
         if isinstance(e, ast.Name):
             ds = self.defs.get(e.id)
             if not ds:
+                # a module-level string constant the function does not rebind
+                if self.mod.has_const(e.id) and e.id not in {a.arg for a in ast.walk(self.fi.node.args) if isinstance(a, ast.arg)}:  # type: ignore[attr-defined]
+                    try:
+                        cn = self.mod.const_node(e.id)
+                    except Exception:
+                        return TAINTED
+                    if isinstance(cn, ast.Constant) and isinstance(cn.value, str):
+                        return CONST
                 return TAINTED
             kinds = {self.classify(d, depth + 1) for d in ds}
             return kinds.pop() if len(kinds) == 1 else (FRAG if kinds <= {FRAG, CONST} else TAINTED)
@@ -85,15 +95,66 @@ class Env:
             return TAINTED if problems else FRAG
         return TAINTED
 
+    def _bound_fragment_maker(self, name: str) -> bool:
+        """`name = getattr(self, <m>)` where <m> is a constant naming a _compile_* method of this class, or a loop variable
+        over a module-level table whose entries at that position all name such methods"""
+        ds = self.defs.get(name, [])
+        if len(ds) != 1 or not (isinstance(ds[0], ast.Call) and is_name(ds[0].func, "getattr") and len(ds[0].args) == 2 and is_name(ds[0].args[0], "self")):
+            return False
+        m = ds[0].args[1]
+        methods = {f.name for f in self.mod.functions.values() if f.cls == self.fi.cls and f.name.startswith("_compile_")}
+        if isinstance(m, ast.Constant):
+            return m.value in methods
+        if not isinstance(m, ast.Name) or m.id in self.defs:
+            return False
+        for n in walk_no_nested(self.fi.node):
+            if isinstance(n, ast.For) and isinstance(n.target, ast.Tuple) and isinstance(n.iter, ast.Name) and self.mod.has_const(n.iter.id) and n.iter.id not in self.defs:
+                idx = [i for i, t in enumerate(n.target.elts) if is_name(t, m.id)]
+                if len(idx) != 1:
+                    continue
+                try:
+                    table = self.mod.const_node(n.iter.id)
+                except Exception:
+                    return False
+                if isinstance(table, (ast.Tuple, ast.List)) and table.elts and all(isinstance(r, ast.Tuple) and len(r.elts) == len(n.target.elts) and isinstance(r.elts[idx[0]], ast.Constant) and r.elts[idx[0]].value in methods for r in table.elts):
+                    return True
+        return False
+
+    def list_lines(self, e: ast.Name, depth: int = 0) -> list[tuple[ast.AST, ast.AST]] | None:
+        """(append call, appended expression) for a local list that only starts empty (or as an alias of such a list) and
+        grows by append; None when it is built any other way"""
+        if depth > 4:
+            return None
+        out: list[tuple[ast.AST, ast.AST]] = []
+        for d in self.defs.get(e.id, []):
+            if isinstance(d, ast.List) and not d.elts:
+                continue
+            if isinstance(d, ast.Name):
+                sub = self.list_lines(d, depth + 1)
+                if sub is None:
+                    return None
+                out += sub
+                continue
+            return None
+        for n in walk_no_nested(self.fi.node):
+            if isinstance(n, ast.Call) and isinstance(n.func, ast.Attribute) and isinstance(n.func.value, ast.Name) and n.func.value.id == e.id and n.args:
+                if n.func.attr == "append":
+                    out.append((n, n.args[0]))
+                elif n.func.attr in ("extend", "insert", "__iadd__"):
+                    return None
+        return out if (out or e.id in self.defs) else None
+
     def classify_list(self, e: ast.AST, depth: int) -> str:
         """element kind of a list expression"""
+        if depth > 8:
+            return TAINTED
         if isinstance(e, ast.Name):
             ds = self.defs.get(e.id, [])
             kinds = set()
             for d in ds:
                 if isinstance(d, (ast.List,)) and not d.elts:
                     continue
-                kinds.add(self.classify_list(d, depth + 1))
+                kinds.add(self.classify_list(d, depth + 1))  # (an alias `a = b` takes b's element kind)
             for a in self.list_appends.get(e.id, []):
                 kinds.add(self.classify(a, depth + 1))
             return kinds.pop() if len(kinds) == 1 else TAINTED
@@ -256,6 +317,23 @@ def refs_of(body: str) -> set[str]:
     return out
 
 
+def grammar_builder_view(gm: Module) -> tuple[FuncInfo, list[str]]:
+    """compile_schema with the helpers it delegates parts of the grammar to inlined (octacheck.inline): helpers called in
+    statement position whose result is not a string fragment (a tuple / list result, or no result)"""
+    from ..inline import inline_helpers
+
+    def select(h: FuncInfo, call: ast.Call, st: ast.stmt) -> bool:
+        if h.cls != "GBNFCompiler" or h.name in ("compile_chain", "compile_constraint", "_escape_literal", "_sanitize_rule_name", "_unique_rule_name"):
+            return False
+        if isinstance(st, ast.Expr):
+            return True
+        tg = st.targets[0] if isinstance(st, ast.Assign) else None
+        ret = getattr(h.node, "returns", None)
+        return isinstance(tg, ast.Tuple) or (ret is not None and ast.unparse(ret).startswith(("list", "tuple", "List", "Tuple")))
+
+    return inline_helpers(gm.func("GBNFCompiler.compile_schema"), select)
+
+
 def check(run: Run) -> None:
     gm = run.project.mod("core.gbnf_compiler")
     run.rule("R12.1", "taint into grammar text: every dynamic string reaches a \"...\" literal only through _escape_literal, a '#' comment only as one line, and rule position only as a sanitised rule name, an escaped quoted literal or a compiled fragment; REGEX text is kept only after a shape test whose language is GBNF-safe", 25)
@@ -263,24 +341,30 @@ def check(run: Run) -> None:
     run.rule("R12.3", "every rule referenced by the constant part of the grammar is defined there (or is a field rule), root is defined on every path, and no structural rule is defined twice on a path", 12)
     run.rule("R12.4", "_escape_literal escapes backslash first, then the quote, and keeps line breaks out; the sanitiser's output alphabet is [a-z0-9_] and never empty", 2)
 
-    cs = gm.func("GBNFCompiler.compile_schema")
+    cs, inlined = grammar_builder_view(gm)
+    run.extra["compile_schema_inlined_helpers"] = inlined
     env = Env(cs, gm, run.project)
     # ---------------------------------------------------------------- R12.1 : compile_schema output sites
     n_sites = 0
     for n in walk_no_nested(cs.node):
         if isinstance(n, ast.Call) and isinstance(n.func, ast.Attribute) and n.func.attr in ("append", "extend", "insert") and is_name(n.func.value, "rules") and n.args:
-            n_sites += 1
             arg = n.args[-1]
-            probs = scan_output(env, arg)
-            run.instance("R12.1", gm.loc(n), f"compile_schema: `{norm(n)}`", ok=not probs)
-            for p in probs:
-                run.violation("R12.1", gm, cs.qualname, n, f"grammar line built unsafely: {p}")
+            # rules.extend(<list built by appends>): every appended line is an output site
+            lines = env.list_lines(arg) if n.func.attr == "extend" and isinstance(arg, ast.Name) else None
+            for site, a in ([(n, arg)] if lines is None else lines):
+                n_sites += 1
+                probs = scan_output(env, a)
+                run.instance("R12.1", gm.loc(site), f"compile_schema: `{norm(site)}`", ok=not probs)
+                for p in probs:
+                    run.violation("R12.1", gm, cs.qualname, site, f"grammar line built unsafely: {p}")
     if n_sites < 15:
         raise AnalysisError(f"compile_schema: only {n_sites} rules.append sites found")
     # fragments returned by the per-kind compilers
     for fi in gm.functions.values():
         if not (fi.cls == "GBNFCompiler" and (fi.name.startswith("_compile_") or fi.name in ("compile_constraint", "compile_chain"))):
             continue
+        if fi.qualname in inlined:
+            continue  # not a fragment maker: a part of compile_schema, analysed there
         fenv = Env(fi, gm, run.project)
         for n in walk_no_nested(fi.node):
             if isinstance(n, ast.Return) and n.value is not None:
@@ -344,13 +428,9 @@ def check(run: Run) -> None:
 
     # ---------------------------------------------------------------- R12.4
     el = gm.func("GBNFCompiler._escape_literal")
-    from .c04 import replace_chain
+    from .c04 import function_replace_chain
 
-    chain: list[tuple[str, str]] = []
-    for n in sorted([x for x in walk_no_nested(el.node) if isinstance(x, ast.Assign) and isinstance(x.value, ast.Call)], key=lambda x: x.lineno):
-        rc = replace_chain(n.value)
-        if rc:
-            chain.extend(rc[1])
+    chain = function_replace_chain(el, run.project)
     srcs = [a for a, _ in chain]
     ok = srcs[:2] == ["\\", '"'] and dict(chain).get("\\") == "\\\\" and dict(chain).get('"') == '\\"' and "\n" in srcs
     run.instance("R12.4", gm.loc(el.node), f"_escape_literal chain {chain}", ok=ok)
